@@ -30,6 +30,15 @@ def c_rntable(tu):
 
 
 def build_c(run):
+    K.sect(run, "rn_table", table_section, run)
+    for con in (CR.PowNbinMask, CR.HopSeqGen, CR.GetParams):
+        K.sect(run, con.name, lambda con=con: K.verify(run, ID, frontend.parse_file(CR.RFCH, "fw"), con))
+    run.assume("struct gsm_time passed to rfch_* is consistent with its fn member (established by C19: gsm_fn2gsmtime / l1s_time_inc)")
+    run.assume("rfch_get_params: l1s.dedicated.h1.{hsn,maio} <= 63 and 1 <= n <= 64 when hopping (the statement's quantifier; set from L1CTL_DM_EST_REQ)")
+    K.finish(run)
+
+
+def table_section(run):
     tu = frontend.parse_file(CR.RFCH, "fw")
     where = "%s:rn_table" % CR.RFCH
     # --- the table: 114 entries compared one by one with the values of the standard embedded in the spec
@@ -43,13 +52,6 @@ def build_c(run):
     for k in range(min(len(vals), len(M.RNTABLE))):
         run.add(Obligation(ID, "rn_table", "table.entry", [], z3.IntVal(vals[k]) == M.RNTABLE[k], kind="table", case="k=%d" % k,
                            where=where, tag={"side": "c", "func": "rn_table", "index": k}))
-    # --- the three functions
-    K.verify(run, ID, tu, CR.PowNbinMask)
-    K.verify(run, ID, tu, CR.HopSeqGen)
-    K.verify(run, ID, tu, CR.GetParams)
-    run.assume("struct gsm_time passed to rfch_* is consistent with its fn member (established by C19: gsm_fn2gsmtime / l1s_time_inc)")
-    run.assume("rfch_get_params: l1s.dedicated.h1.{hsn,maio} <= 63 and 1 <= n <= 64 when hopping (the statement's quantifier; set from L1CTL_DM_EST_REQ)")
-    K.finish(run)
 
 
 build = build_c
@@ -152,7 +154,7 @@ def replay_c(payload):
         exp = {"len": len(M.RNTABLE)} if k < 0 else {"val": M.RNTABLE[k]}
     elif func in ("pow_nbin_mask", "rfch_hop_seq_gen", "rfch_get_params") and not precondition_met(func, w):
         # a replay only counts for inputs that satisfy the contract's pre-condition
-        return {"confirmed": False, "observed": "model input outside the pre-condition (HSN/MAIO <= 63, 1 <= N <= 64, FN in the hyperframe)",
+        return {"confirmed": False, "error": "counter-model not executed: outside the pre-condition", "observed": "model input outside the pre-condition (HSN/MAIO <= 63, 1 <= N <= 64, FN in the hyperframe)",
                 "expected": "n/a", "precondition_met_by_model_input": False}
     elif func == "pow_nbin_mask":
         n = w["n"]
